@@ -60,6 +60,11 @@ def ev_fullkey(e):
 ITER_EVENTS = ('iter', 'next', 'stop')
 
 
+def _norm(e):
+    """event text with bool index arguments read as ints (see the bint-index mechanism)"""
+    return repr(e).replace("['bool', 'True']", "['int', '1']").replace("['bool', 'False']", "['int', '0']")
+
+
 def peel(le, lg, facts, labels, got_raised=False):
     """Explain the differences between the CPython log `le` and the compiled log `lg` by known, structurally
     recognisable mechanisms, removing the events each one accounts for, until the logs agree or an unexplained
@@ -90,7 +95,8 @@ def peel(le, lg, facts, labels, got_raised=False):
         if nb in ITER_EVENTS or na in ITER_EVENTS:
             fk = ev_fullkey(b if nb in ITER_EVENTS else a)
             drop = lambda e: ev_name(e) in ITER_EVENTS and ev_fullkey(e) == fk
-            if sorted(map(repr, filter(drop, le))) == sorted(map(repr, filter(drop, lg))):
+            if got_raised or sorted(map(repr, filter(drop, le))) == sorted(map(repr, filter(drop, lg))):
+                # (when the call ends in an exception CPython may never get to iterate the iterable at all)
                 le = [e for e in le if not drop(e)]
                 lg = [e for e in lg if not drop(e)]
                 mechs.add('star-iterable-iterated-early')
@@ -118,9 +124,10 @@ def peel(le, lg, facts, labels, got_raised=False):
         if hit:
             continue
         # M5: `o.x.y += v` evaluates `o.x` a second time for the store
-        if nb in ('getattr', 'getitem') and b in lg[:i] and 'stmt-augassign' in labels:
+        seen_before = {_norm(e) for e in lg[:i]}
+        if nb in ('getattr', 'getitem') and _norm(b) in seen_before and 'stmt-augassign' in labels:
             j = i
-            while j < len(lg) and ev_name(lg[j]) in ('getattr', 'getitem') and lg[j] in lg[:i]:
+            while j < len(lg) and ev_name(lg[j]) in ('getattr', 'getitem') and _norm(lg[j]) in seen_before:
                 j += 1
             if j < len(lg) and ev_name(lg[j]) in ('setattr', 'setitem'):
                 del lg[i:j]
@@ -142,6 +149,11 @@ def peel(le, lg, facts, labels, got_raised=False):
     return mechs, i, le, lg
 
 
+def _is_subsequence(short, long):
+    it = iter(long)
+    return all(any(x == y for y in it) for x in short)
+
+
 def classify_rest(labels, exp, got, i, le, lg, typed):
     """mechanism key for an unexplained divergence: kind of difference, statement constructs, event names"""
     oe = exp[1] if exp[0] == 'exc' else 'ok'
@@ -161,6 +173,9 @@ def classify_rest(labels, exp, got, i, le, lg, typed):
         kind = 'missing-events'
     else:
         kind = 'different-events'
+    if kind == 'missing-events' and {'fstring', 'boolop'} <= set(labels) and _is_subsequence(lg, le):
+        # `[f'{x()}'] and y`: ConstantFolding takes a display holding a single-field f-string for a constant
+        return 'eval:display-with-fstring-as-boolop-operand-not-evaluated'
     fine = sorted(l for l in labels if not l.startswith(('stmt-', 'target-')))[:4]
     return 'eval:%s:%s:%s:%s-vs-%s:%s->%s%s' % (kind, cons, '+'.join(fine), ev_name(a), ev_name(b), oe, og,
                                                 ':typed' if typed else '')
@@ -266,6 +281,8 @@ def main(ck):
             f = byname[c['case']['f']]
             main_l = '+'.join(sorted(l for l in f[2] if l.startswith(('stmt-', 'typed-')))[:3])
             ckey = 'eval:crash:%s' % main_l
+            if {'walrus', 'stmt-parallel-assign', 'comprehension'} <= set(f[2]) and 'Segmentation fault' in (c['stderr'] or ''):
+                ckey = 'eval:parallel-assignment-with-walrus-and-comprehension:segfault'
             if {'in-literal', 'not', 'boolop', 'condexpr'} <= set(f[2]) and 'Segmentation fault' in (c['stderr'] or ''):
                 # (1 if a else (b or (not c) or (x in (f(), g())))) segfaults
                 ckey = 'eval:condexpr-with-or-chain-of-not-and-in-literal:segfault'
